@@ -135,3 +135,30 @@ pub fn run<T: Send + 'static>(f: impl FnOnce() -> T + Send + 'static) -> Verdict
         }
     }
 }
+
+/// Run `f` on a fresh thread under a plain time limit — for code that legitimately sleeps or blocks for a known,
+/// bounded time (the blocking entry points with their timeouts), where "blocked in the kernel" proves nothing.
+/// `first` applies until a hang has been seen in this process, `later` afterwards.
+pub fn run_limited<T: Send + 'static>(
+    f: impl FnOnce() -> T + Send + 'static,
+    first: Duration,
+    later: Duration,
+) -> Verdict<T> {
+    let (tx, rx) = mpsc::channel::<Option<T>>();
+    let spawned = std::thread::Builder::new().spawn(move || {
+        let r = hcommon::catch(f);
+        let _ = tx.send(r);
+    });
+    if spawned.is_err() {
+        return Verdict::Panicked;
+    }
+    let limit = if SEEN_HANG.load(Ordering::SeqCst) { later } else { first };
+    match rx.recv_timeout(limit) {
+        Ok(Some(v)) => Verdict::Done(v),
+        Ok(None) | Err(mpsc::RecvTimeoutError::Disconnected) => Verdict::Panicked,
+        Err(mpsc::RecvTimeoutError::Timeout) => {
+            SEEN_HANG.store(true, Ordering::SeqCst);
+            Verdict::Hung
+        }
+    }
+}
